@@ -282,6 +282,15 @@ After(d, e) ==
 
 ObsAll(d, o) == IF ~o.some THEN {} ELSE UNION { ObsFails(d, o.cs[i].c, o.cs[i]) : i \in DOMAIN o.cs }
 
+OthersFails(d, e, o) ==
+  IF ~o.some THEN {} ELSE
+  LET tbl == d[e.c].tables[e.t]
+      k == IF e.op = "PutItem" THEN e.item ELSE e.key
+      rest == IF KeyTypeOK(tbl, k) THEN { it \in tbl.items : ~KeyEq(tbl, it, k) } ELSE tbl.items
+  IN IF \A i \in DOMAIN o.cs : o.cs[i].c = e.c =>
+          \A j \in DOMAIN o.cs[i].tables : o.cs[i].tables[j].t = e.t =>
+             (o.cs[i].tables[j].scan.err = "none" /\ \A it \in rest : \E x \in DOMAIN o.cs[i].tables[j].scan.items : SameItem(o.cs[i].tables[j].scan.items[x], it))
+     THEN {} ELSE {"Others"}
 EventFailsR(d, e) ==
   LET f1 == RespFails(d, e, e.r1, 1)
       f2 == RespFails(d, e, e.r2, 2)
@@ -291,7 +300,12 @@ EventFailsR(d, e) ==
       obs == IF "Outcome" \in f1 \/ "Outcome" \in f2
              THEN (IF refused THEN Tag("o1.", ObsAll(d, e.o1)) \cup Tag("o2.", ObsAll(d, e.o2)) ELSE {})
              ELSE Tag("o1.", ObsAll(After(d, e), e.o1)) \cup Tag("o2.", ObsAll(After(d, e), e.o2))
-  IN [all  |-> Tag("r1.", f1) \cup Tag("r2.", f2) \cup (IF RespSame(e, e.r1, e.r2) THEN {} ELSE {"Sdk.Equal"}) \cup obs,
+      \* a single-item write the specification expected to be refused but that went through: what became of its own item is unknown
+      \* (often a recorded deviation), but every OTHER item of the table must still be there, unchanged (write locality on the real code)
+      unexpectedOk == ("Outcome" \in f1 \/ "Outcome" \in f2) /\ ~refused /\ e.op \in {"PutItem", "UpdateItem", "DeleteItem"}
+                      /\ e.t \in DOMAIN d[e.c].tables
+      others == IF unexpectedOk THEN Tag("o1.", OthersFails(d, e, e.o1)) \cup Tag("o2.", OthersFails(d, e, e.o2)) ELSE {}
+  IN [all  |-> Tag("r1.", f1) \cup Tag("r2.", f2) \cup (IF RespSame(e, e.r1, e.r2) THEN {} ELSE {"Sdk.Equal"}) \cup obs \cup others,
       \* the state after the event is still KNOWN although an answer was wrong: both clients took an allowed branch, the same one,
       \* nothing crashed, and either the full observation attached to the event agrees with the specification or the operation is
       \* a read (whose purity the next observation of the trace decides).  The judge then records the failure and goes on,
